@@ -15,6 +15,9 @@ structure DSt where
   cap : Nat := 0
   /-- (name, source type, context) in program order -/
   streams : List (SDecl String) := []
+  /-- streams whose source is not a bare identifier (`X as x`, sequence steps): the second routing
+  pass of `build_with_checkpoint` does not see them -/
+  aliased : List (SDecl String) := []
   st : St Unit String := init [] (fun _ => ())
   /-- records that must come next (sub-steps of one model step) -/
   expect : List String := []
@@ -32,8 +35,16 @@ def tyOf (key : String) : String := (key.splitOn "#").headD ""
 def routeOf (streams : List (SDecl String)) (key : String) : Option Nat :=
   routeTy streams (tyOf key)
 
+/-- The declarations in the order in which `build_with_checkpoint` inserts their routes (the model's
+`routeTy` lets the last consumer in the list win): pass 1 takes every source in program order;
+pass 2 then re-inserts, in program order, the bare-identifier sources that name a stream — so those
+come last. -/
+def routeOrder (d : DSt) : List (SDecl String) :=
+  let second (s : SDecl String) : Bool := !d.aliased.contains s && (ownerOf d.streams s.src).isSome
+  d.streams.filter (fun s => !second s) ++ d.streams.filter second
+
 def mkNet (d : DSt) (outs : List String) : Net Unit String :=
-  { n := d.n, cap := d.cap, blocking := false, route := routeOf d.streams, dflt := 0,
+  { n := d.n, cap := d.cap, blocking := false, route := routeOf (routeOrder d), dflt := 0,
     proc := fun _ _ _ => ((), outs) }
 
 def fmtSrcless (o : Obs String) : String :=
@@ -65,23 +76,40 @@ def parseStreams (ws : List String) : List (String × List String) :=
     | name :: rest => (name, splitList (":".intercalate rest))
     | [] => ("", [])
 
-/-- edge record `0>1:a+,b-;a` = producer>consumer : attempts (suffix + enqueued, suffix - dropped) ; received.
-A reported failed `try_send` counts only if the model agrees that the inbox was full. -/
-def judgeEdge (log : List (Obs String)) (w : String) : String :=
+/-- edge record `u@p>q:attempts;received;produced`: stream type `u` of context `p`, context `q`;
+attempts carry a suffix (`+` enqueued into `q`, `-` try_send into `q` failed, `!` not sent to `q`);
+`produced` is the engine's production order. Exactly once, in production order: the attempts must be
+the produced events in that order, and `q` must have received them in that order. A reported failed
+`try_send` counts only if the model agrees that the inbox was full; a missing route counts as the
+known one-context-per-type finding only if the model's routing table starves the consumer. -/
+def judgeEdge (streams : List (SDecl String)) (log : List (Obs String)) (w : String) : String :=
   match w.splitOn ":" with
   | [edge, body] =>
     match body.splitOn ";", edge.splitOn ">" with
-    | [att, got], [c, q] =>
+    | [att, got, prod], [up, q] =>
+      let u := (up.splitOn "@").headD ""
+      let p := (((up.splitOn "@").drop 1).headD "").toNat?.getD 0
+      let qn := q.toNat?.getD 0
       let attempts := splitList att
       let recvd := splitList got
+      let produced := splitList prod
       let sent := attempts.map (fun a => (a.dropEnd 1).toString)
       let enqd := (attempts.filter (fun a => a.endsWith "+")).map (fun a => (a.dropEnd 1).toString)
       let dropd := (attempts.filter (fun a => a.endsWith "-")).map (fun a => (a.dropEnd 1).toString)
-      let modelDrops := drops log (c.toNat?.getD 0) (q.toNat?.getD 0)
-      if recvd == sent then "ok"
+      let unrouted := (attempts.filter (fun a => a.endsWith "!")).map (fun a => (a.dropEnd 1).toString)
+      let consumers := streams.filter (fun s => s.src == u && s.ctx == qn)
+      let modelDrops := (drops log p qn).filter (fun k => tyOf k == u)
+      if sent != produced then
+        s!"JUDGE edge {edge}: engine produced {produced} but the context forwarded {sent} (order inside a drained batch / missing forward)"
+      else if recvd == sent then "ok"
+      else if !unrouted.isEmpty then
+        if consumers.isEmpty then
+          (if recvd.isEmpty then "ok" else s!"JUDGE edge {edge}: context {q} received {recvd} which was never sent to it")
+        else if consumers.all (starved streams) && recvd.isEmpty then "KNOWN-ROUTE"
+        else s!"JUDGE edge {edge}: {unrouted} produced for a stream in context {q} but not routed there (received {recvd})"
       else if dropd != modelDrops then
         s!"JUDGE edge {edge}: forwarding of {dropd} reported as failed, the inbox was full only for {modelDrops}; produced {sent}, received {recvd}"
-      else if recvd == enqd then "KNOWN"
+      else if recvd == enqd then "KNOWN-DROP"
       else s!"JUDGE edge {edge}: produced {sent}, of which enqueued {enqd}, but received {recvd}"
     | _, _ => "BADLINE"
   | _ => "BADLINE"
@@ -101,6 +129,9 @@ def step (d : DSt) (line : String) : DSt × String :=
     ({ n := n.toNat?.getD 0, cap := cap.toNat?.getD 0 }, "")
   | ["stream", name, src, c] =>
     ({ d with streams := d.streams ++ [{ name := name, src := src, ctx := c.toNat?.getD 0 }] }, "")
+  | ["stream", name, src, c, "alias"] =>
+    let sd : SDecl String := { name := name, src := src, ctx := c.toNat?.getD 0 }
+    ({ d with streams := d.streams ++ [sd], aliased := d.aliased ++ [sd] }, "")
   | [] => (d, "")
   | ws =>
     -- sub-records of a model step (snapshot, ack, completion) must come exactly when expected
@@ -178,12 +209,14 @@ def step (d : DSt) (line : String) : DSt × String :=
       let m := if d.st.out.isEmpty then "-" else ",".intercalate d.st.out
       (d, if d.broken then "SKIP" else diffOr m impl)
     | "edges" :: es =>
-      let vs := es.map (judgeEdge d.st.log)
+      let vs := es.map (judgeEdge (routeOrder d) d.st.log)
       match vs.find? (fun v => v.startsWith "JUDGE" || v == "BADLINE") with
       | some v => (d, v)
       | none =>
-        if vs.contains "KNOWN" then
+        if vs.contains "KNOWN-DROP" then
           (d, "KNOWN[C26-try-send-drop] an event produced for a stream in another context was never delivered: its try_send into the full inbox failed and the result is ignored")
+        else if vs.contains "KNOWN-ROUTE" then
+          (d, "KNOWN[C26-one-context-per-type] events produced for a stream in another context are never delivered: the routing table sends their type to one other context only")
         else (d, "ok")
     | "same" :: ref =>
       let want := parseStreams ref
@@ -196,7 +229,7 @@ def step (d : DSt) (line : String) : DSt × String :=
           | some w => s!"stream {w.1}: without contexts {w.2}, with contexts {gotOf w.1}"
           | none => "stream sets differ"
         -- streams that the single-context-per-type routing starves, and everything downstream
-        let starvedCl := downstream d.streams ((d.streams.filter (starved d.streams)).map (·.name))
+        let starvedCl := downstream d.streams ((d.streams.filter (starved (routeOrder d))).map (·.name))
         -- streams that consume a type of which an event was dropped, and everything downstream
         let dropCl := downstream d.streams ((d.streams.filter (fun s => d.dropped.contains s.src)).map (·.name))
         let isStarved (w : String × List String) : Bool := starvedCl.contains w.1 && gotOf w.1 == []
